@@ -21,7 +21,85 @@ def budget(tier):
     return 600 if tier == "quick" else 30000
 
 
+def gen_rgfa_case(rng):
+    """rGFA-conforming content (props/c13.gen_rgfa_doc) with 0-2 departures from the dialect: a mandatory tag missing
+    or of another type, a link tag of another type, an overlap that is not 0M, a header / containment / path line,
+    a link to an undefined segment (placeholder), GFA2 syntax; `validate_rgfa()` against GfaModel/Rgfa.lean"""
+    from harness.props import c13 as P
+    syntax = "gfa2" if rng.random() < 0.12 else "gfa1"
+    lines = [l for l in P.gen_rgfa_doc(rng, syntax) if not l.startswith("#")]
+    for _ in range(rng.choice([0, 0, 1, 1, 2])):
+        k = rng.choice(["droptag", "typetag", "linktag", "overlap", "header", "contain", "path", "dangling"])
+        idxS = [i for i, l in enumerate(lines) if l.startswith("S\t")]
+        idxL = [i for i, l in enumerate(lines) if l.startswith("L\t")]
+        if k == "droptag" and idxS:
+            i = rng.choice(idxS); f = lines[i].split("\t"); t = rng.choice(["SN:", "SO:", "SR:"])
+            lines[i] = "\t".join(x for x in f if not x.startswith(t))
+        elif k == "typetag" and idxS:
+            i = rng.choice(idxS); f = lines[i].split("\t")
+            lines[i] = "\t".join({"SN:Z": "SN:i:3", "SO:i": "SO:Z:0", "SR:i": "SR:f:1.0"}.get(x[:4], x) if rng.random() < 0.5 else x for x in f)
+        elif k == "linktag" and idxL:
+            i = rng.choice(idxL)
+            lines[i] += "\t" + rng.choice(["L1:Z:x", "L2:f:2.0", "SR:Z:0", "L1:i:2", "xy:Z:a"])
+        elif k == "overlap" and idxL:
+            i = rng.choice(idxL); f = lines[i].split("\t"); f[5] = rng.choice(["*", "1M", "00M", "0M0M"]); lines[i] = "\t".join(f)
+        elif k == "header":
+            lines.insert(rng.randrange(len(lines) + 1), rng.choice(["H\tVN:Z:1.0", "H\txx:i:1"]))
+        elif k == "contain" and idxS and syntax == "gfa1":
+            a = lines[rng.choice(idxS)].split("\t")[1]; b = lines[rng.choice(idxS)].split("\t")[1]
+            if a != b:
+                lines.append("C\t%s\t+\t%s\t+\t0\t*" % (a, b))
+        elif k == "path" and idxS and syntax == "gfa1":
+            a = lines[rng.choice(idxS)].split("\t")[1]
+            lines.append("P\tpp\t%s+\t*" % a)
+        elif k == "dangling" and idxS and syntax == "gfa1":
+            a = lines[rng.choice(idxS)].split("\t")[1]
+            lines.append("L\t%s\t+\tnowhere\t-\t0M" % a)
+    return {"kinds": ["rgfa"], "lines": lines, "explicit": "none", "vlevel": 1, "pick": 0}
+
+
+def rgfa_ops(case):
+    from harness.corr.graphcorr import supported_add, ERRS
+    gfapy = lib.import_gfapy()
+    try:
+        g = gfapy.Gfa(vlevel=1)
+        for l in case["lines"]:
+            g.add_line(l)
+        g.process_line_queue()
+    except gfapy.Error:
+        return [], []
+    v = g.version
+    if v not in ("gfa1", "gfa2"):
+        return [], []
+    body = [l for l in case["lines"] if not l.startswith("H\t")]
+    if not all(supported_add(l) for l in body):
+        return [], []
+    # the model is given the lines in the library's own order (segments in registry order, then the rest): which
+    # complaint comes first depends on it
+    own = [str(l) for l in g.lines if l.record_type in "SLCPEGFOU" and not l.virtual]
+    ops = [op("g.new", v)] + [op("g.add", l) for l in own]
+    exp = ["ok"] * len(ops)
+    r = lib.outcome(g.validate_rgfa)
+    if any(x.virtual for x in g.segments):
+        # a placeholder sits somewhere in the library's order: compared only when no real segment has a complaint of
+        # its own (then the placeholder's missing tags are the first complaint wherever it sits)
+        clean = all(x.virtual or (x.get_datatype("SN") == "Z" and x.get_datatype("SO") == "i" and x.get_datatype("SR") == "i"
+                                  and all(t in x.tagnames for t in ("SN", "SO", "SR"))) for x in g.segments)
+        if not clean or g.headers or g.containments or g.paths:
+            return [], []
+    if r[0] == "ok":
+        e = "ok"
+    elif r[0] == "gerr" and r[1] in ("VersionError", "ValueError", "NotFoundError"):
+        e = "gerr " + r[1]
+    else:
+        return [], []
+    ops.append(op("g.rgfa", int(bool(g.headers)))); exp.append(e)
+    return ops, exp
+
+
 def gen_case(rng, tier, i):
+    if i % 4 == 3:
+        return gen_rgfa_case(rng)
     n = rng.randint(0, 6)
     w = {"comment": 2, "hNone": 2, "hVN1": 1, "hVN2": 1, "hBad": 0.3, "s1": 2, "s2": 2, "g1": 3, "g2": 3, "custom": 1.5}
     ks = rng.choices(KINDS, weights=[w[k] for k in KINDS], k=n)
@@ -38,6 +116,12 @@ def nontrivial(case):
 
 
 def model_ops(case):
+    if case["kinds"] == ["rgfa"]:
+        return rgfa_ops(case)
+    return version_ops(case)
+
+
+def version_ops(case):
     gfapy = lib.import_gfapy()
     r = lib.Rng(case["pick"])
     lines = []
